@@ -161,10 +161,22 @@ func runSClose(seed int64, idx int) *scen.Outcome {
 		desc += " hotwriters"
 	}
 	victim := rng.Intn(k)
+	var longSpec svc.Spec
+	var longDone chan *rig.CallRec
 	switch event {
 	case "closestream":
 		if rng.Intn(2) == 0 {
 			synctest.Wait()
+		}
+		if rng.Intn(2) == 0 {
+			// a long unary handler (30 virtual seconds) is running on the same
+			// connection when the stream is closed: "promptly" must not mean
+			// "once unrelated handlers have returned"
+			longSpec = svc.Spec{Run: uint32(idx), Conn: 1, Caller: 8, Counter: 7, ReplyLen: 30, DelayUs: 30_000_000}
+			longDone = make(chan *rig.CallRec, 1)
+			go func() { longDone <- rig.Do(conn, rig.FormCall, codec, rig.Method(codec, 0), longSpec, 0, nil) }()
+			synctest.Wait()
+			desc += " longunary"
 		}
 		if err := streams[victim].st.Close(); err != nil {
 			bad("C10/sclose/close-error", "Stream.Close returned "+err.Error())
@@ -259,6 +271,35 @@ func runSClose(seed int64, idx int) *scen.Outcome {
 		rec := rig.Do(conn, rig.FormCall, codec, rig.Method(codec, 0), svc.Spec{Run: uint32(idx), Conn: 1, Caller: 9, Counter: 2, ReplyLen: 30}, 0, nil)
 		if rec.Err != rpc.ErrShutdown || time.Since(t0) != 0 {
 			out.Findings = append(out.Findings, scen.Finding{Prop: "C03", FSig: "C03/sclose/later-call/" + event, What: fmt.Sprintf("a Call started after the connection had ended (%s, with streams open) returned %v after %v; expected ErrShutdown at once [%s]", event, rec.Err, time.Since(t0), desc)})
+		}
+	}
+	if longDone != nil {
+		// the victim's handler must have been released while the long unary
+		// handler was still running, and the long call itself is undisturbed
+		execs, _, _ := r.Ledger.Snapshot()
+		var longExit int64 = -1
+		for _, e := range execs {
+			if e.ID == longSpec.ID() {
+				longExit = e.Exit
+			}
+		}
+		sr := recOf(streams[victim].id)
+		switch {
+		case longExit < 0:
+			out.Stats["longunary_not_started"]++
+		case sr != nil && sr.Exit != 0 && longExit != 0 && sr.Exit > longExit:
+			bad("C10/sclose/released-only-after-unary", fmt.Sprintf("the server-side handler of the closed stream %d was released only after an unrelated 30 s unary handler on the same connection had returned", victim))
+		default:
+			out.Stats["longunary_stream_released_first"]++
+		}
+		env.Settle(func() bool { return len(longDone) > 0 }, 2*time.Minute)
+		select {
+		case rec := <-longDone:
+			if rec.Err != nil || rig.CheckReply(rec) != "" {
+				bad("C10/sclose/unary-disturbed", fmt.Sprintf("a unary call outstanding while stream %d was closed failed: %v %s", victim, rec.Err, rig.CheckReply(rec)))
+			}
+		default:
+			bad("C10/sclose/unary-disturbed", fmt.Sprintf("a 30 s unary call outstanding while stream %d was closed has not returned after two virtual minutes", victim))
 		}
 	}
 	if event == "closestream" {
